@@ -43,7 +43,7 @@ Next ==
   \/ ChildRead(1, 1)
 
 Spec == Init /\ [][Next]_vars
-Export == (Len(hist') > Len(hist) /\ hist'[Len(hist')].e = "ret") => PrintT(<<"BEH", ToJson(hist')>>)
+Export == ExportRet
 
 \* C14: the handle only moves none -> ns -> run -> exited (-> none by destroy); ns <- run never happens
 LifeOrder ==
